@@ -1,10 +1,11 @@
 """C05 — snapshots, read transactions and iterators are frozen in time."""
 from gen import Gen
 from seqdiff import run_seq
-from seqprop import coverage, replay_file, corpus
+from seqprop import coverage, replay_file, corpus, audit
 
-LEVEL = "translation_validation"
-COQ_TARGETS = ()
+LEVEL = "proof"
+COQ_TARGETS = ("props/C05.vo",)
+THEOREMS = ["C05_tracker_invariants", "C05_reads_frozen", "C05_fjall_parameters_ok", "C05_select_defined"]
 RULE = ("programs with up to 5 concurrently live views (snapshots / read_tx, write-transaction read views, lazily consumed "
         "iterators from iter/range/prefix, consumed from either end), some opened before the first write (instant 0) and "
         "several at the same instant, closed in random order, interleaved with writes, clears, ingestion, rotate/step/"
@@ -40,6 +41,7 @@ def programs(seed, n, nops):
 
 def run(rep, tier, seed, build):
     n, nops = (240, 45) if tier == "quick" else (4000, 110)
+    audit(rep, "props/C05.v", THEOREMS, build)
     progs = corpus("C05") + programs(seed, n, nops)
     res = run_seq(rep, progs)
     coverage(rep, res, progs, RULE)
